@@ -117,7 +117,7 @@ fn sb_add_step<const N: usize>() {
 /// Assumed contract of the standard library's `<[T]>::rotate_right(1)` (trusted dependency): the
 /// last element moves to the front, all others shift up by one. Installed as a stub because the
 /// library implementation (raw-pointer memmove with run-time sizes) is intractable for CBMC.
-fn rotate_right_model<T>(s: &mut [T], k: usize) {
+pub(crate) fn rotate_right_model<T>(s: &mut [T], k: usize) {
     kani::assert(k == 1, "rotate_right model: only k == 1 is used by SortedBuffer::add");
     let len = s.len();
     if len < 2 {
@@ -135,7 +135,7 @@ fn rotate_right_model<T>(s: &mut [T], k: usize) {
     }
 }
 /// Same for `<[T]>::rotate_left(1)`: the first element moves to the back.
-fn rotate_left_model<T>(s: &mut [T], k: usize) {
+pub(crate) fn rotate_left_model<T>(s: &mut [T], k: usize) {
     kani::assert(k == 1, "rotate_left model: only k == 1 is used by SortedBuffer::add");
     let len = s.len();
     if len < 2 {
